@@ -309,6 +309,10 @@ func (c *DefaultCtx) tryDecodeBodyInOrder(
 		// the decoded body is held to the same limit as a body that is sent as it is: a few
 		// kilobytes of compressed zeros must not make the server allocate gigabytes
 		decoded := limitedBody{limit: c.app.config.BodyLimit}
+		if decoded.limit <= 0 {
+			// not a positive limit: the server accepts bodies up to its default limit, so does decoding
+			decoded.limit = DefaultBodyLimit
+		}
 		switch encoding {
 		case StrGzip:
 			_, err = fasthttp.WriteGunzip(&decoded, c.fasthttp.Request.Body())
